@@ -451,6 +451,36 @@ def sweep_seed(job):
                             rec["c04_p_compiles"] = False
                     out["instances"].extend(extra)
                 out["instances"].append(rec)
+    if job.get("grid"):
+        from .tight_sched import grid as _grid
+
+        seen_q = set()
+        for opname, args in _grid(p, env, quick=(tier == "quick")):
+            if only and opname not in only:
+                continue
+            if opname not in ops:
+                continue
+            if time.time() - t_start > budget_s:
+                out["stats"]["budget_exhausted"] = True
+                break
+            n_attempt += 1
+            rec = {"op": opname, "args": short_args(args), "enc": None, "grid": True}
+            try:
+                rec["enc"] = [enc_arg(a) for a in args]
+            except Exception:
+                pass
+            try:
+                _one_instance(ctx, p, ops[opname], opname, args, props, live, rec, env, bounds, rng, tier)
+            except (Unsupported, TooBig) as ex:
+                rec["status"] = "skipped"
+                rec["why"] = f"{type(ex).__name__}: {ex}"
+            except Exception as ex:
+                rec["status"] = "harness_error"
+                rec["why"] = f"{type(ex).__name__}: {ex}"
+                rec["tb"] = traceback.format_exc()[-1500:]
+            rec.pop("_q_obj", None)
+            rec.pop("_trace", None)
+            out["instances"].append(rec)
     out["stats"]["attempts"] = n_attempt
     out["stats"]["queries"] = ctx.queries
     out["stats"]["solver_s"] = round(ctx.solver_s, 3)
